@@ -271,7 +271,8 @@ def run_cases(cases, ctx):
             res['histogram']['sources-inside-reference-dialect'] = inside
             res['histogram']['sources-outside-reference-dialect'] = len(srcs) - inside
             ok = {s for s, a in zip(srcs, ans) if a != 'N' and int(a.split(' ')[1]) >= 2}
-            res['nontrivial'] = len({(c['kind'], c['src'], c.get('cfg')) for c in cases if c['kind'] != 'fuses' and c['src'] in ok}) + 256
+            res['nontrivial'] = len({(c['kind'], c['src'], c.get('cfg')) for c in cases if c['kind'] != 'fuses' and c['src'] in ok}) + \
+                len([c for c in cases if c['kind'] == 'fuses'])
     finally:
         mc.cleanup()
     res['evaluations'] = sum(257 * len(c['prevs']) if c['kind'] == 'fuses' else 1 for c in cases)
